@@ -153,6 +153,10 @@ pub struct Handshake {
     /// extra pattern bytes appended after the trailing auth/db/plugin data
     #[serde(default)]
     pub tail_pad: usize,
+    /// 4.1 layout: the 23 reserved bytes after the character set, when not all zero (MariaDB
+    /// clients put their extended capabilities in the last four); shorter = zero-padded in front
+    #[serde(default)]
+    pub reserved: Vec<u8>,
 }
 
 impl Handshake {
@@ -168,7 +172,15 @@ impl Handshake {
             seq: 1,
             user_pad: 0,
             tail_pad: 0,
+            reserved: vec![],
         }
+    }
+    /// the 23 reserved bytes of the 4.1 layout
+    pub fn reserved23(&self) -> [u8; 23] {
+        let mut r = [0u8; 23];
+        let n = self.reserved.len().min(23);
+        r[23 - n..].copy_from_slice(&self.reserved[self.reserved.len() - n..]);
+        r
     }
     fn padded(&self, user: &[u8], tail: &[u8]) -> (Vec<u8>, Vec<u8>) {
         let mut u = user.to_vec();
@@ -181,7 +193,9 @@ impl Handshake {
         match &self.kind {
             HsKind::V41 { caps, max_packet, charset, user, tail } => {
                 let (u, t) = self.padded(user, tail);
-                handshake41(*caps, *max_packet, *charset, &u, &t)
+                let mut p = handshake41(*caps, *max_packet, *charset, &u, &t);
+                p[9..32].copy_from_slice(&self.reserved23());
+                p
             }
             HsKind::V320 { caps, max_packet, user, tail } => {
                 let (u, t) = self.padded(user, tail);
